@@ -35,7 +35,7 @@ TRANSFORMS = ("none", "modify", "drop-odd")
 
 
 def annotations(tier):
-    out = [("gff3", 1), ("gff3", 3), ("gff3", 4), ("gtf", 3), ("gff3mixed", 4)]
+    out = [("gff3", 1), ("gff3", 3), ("gff3", 4), ("gtf", 3), ("gff3mixed", 4), ("gff3dots", 4)]
     if tier != "quick":
         out += [("gff3", 12), ("gtf", 5)]
     return out
@@ -65,6 +65,12 @@ def texts_of(kind, n):
                 "c1\ts\tmRNA\t15\t25\t.\t+\t.\tID=h1;tag=t1,u1;Name=b",
                 "c1\ts\texon\t20\t30\t.\t+\t.\tID=h2;tag=t2;tag=u2;Name=c",
                 "c1\ts\texon\t25\t35\t.\t+\t.\tID=h3;tag=t3,u3;Name=d"][:n]
+    if kind == "gff3dots":
+        # the third feature has no coordinates ('.' start and end): it has no length, hence no truth value of its own
+        return ["c1\ts\tgene\t10\t20\t.\t+\t.\tID=d0;tag=t0,u0;Name=a",
+                "c1\ts\tmRNA\t15\t25\t.\t+\t.\tID=d1;tag=t1,u1;Name=b",
+                "c1\ts\tregion\t.\t.\t.\t+\t.\tID=d2;tag=t2,u2;Name=c",
+                "c1\ts\texon\t25\t35\t.\t+\t.\tID=d3;tag=t3,u3;Name=d"][:n]
     if kind == "gff3":
         d = G.ALL[0]
         return files.render(d, files.file_lines(d, "parent" if n >= 3 else "same", n))
@@ -95,19 +101,23 @@ class Source(object):
         return f
 
 
+def _start(f):
+    return "." if f.start is None else str(f.start)
+
+
 def make_transform(name, log, starts=None):
     if name == "none":
         return None
 
     def modify(f):
-        log.append(str(f.start))
+        log.append(_start(f))
         key = "tag" if "tag" in f.attributes else "exon_number"
         f.attributes[key] = [v + "_x" for v in f.attributes[key]]
         return f
 
     def drop_odd(f):
-        log.append(str(f.start))
-        idx = starts.index(str(f.start))
+        log.append(_start(f))
+        idx = starts.index(_start(f))
         return f if idx % 2 == 0 else None
 
     return modify if name == "modify" else drop_odd
@@ -119,7 +129,7 @@ def expected_after(kind, texts, tname):
         if tname == "drop-odd" and i % 2 == 1:
             continue
         if tname == "modify":
-            if kind == "gff3":
+            if kind in ("gff3", "gff3dots"):
                 t = t.replace("tag=t%d,u%d" % (i, i), "tag=t%d_x,u%d_x" % (i, i))
             else:
                 t = t.replace('exon_number "%d"' % (i + 1), 'exon_number "%d_x"' % (i + 1))
@@ -194,7 +204,12 @@ def body_forms(ch, ctx):
         tf = make_transform(tname, log, [t.split("\t")[3] for t in texts])
         data, kw, src = build_input(form, kind, texts, wd, cl, tf, "a")
         it = data if form == "DataIterator" else gffutils.DataIterator(data, **kw)
-        got = [str(f) for f in it]
+        try:
+            got = [str(f) for f in it]
+        except Exception as e:
+            ctx.fail("iteration-raised", dict(sig, exc=type(e).__name__, coordinate_less_feature=kind == "gff3dots"), checklines=cl,
+                     message=str(e)[:200], lines=texts)
+            return
         ctx.check(got == exp, "iterated-sequence-differs", sig, checklines=cl, got=got, expected=exp)
         if tname != "none":
             want = [t.split("\t")[3] for t in texts]
@@ -226,7 +241,12 @@ def body_forms(ch, ctx):
         cre = dict(kw)
     else:
         cre = dict(kw)
-    db = gffutils.create_db(data, ":memory:", verbose=False, **cre)
+    try:
+        db = gffutils.create_db(data, ":memory:", verbose=False, **cre)
+    except Exception as e:
+        ctx.fail("import-raised", dict(sig, exc=type(e).__name__, coordinate_less_feature=kind == "gff3dots"), checklines=cl,
+                 message=str(e)[:200], lines=texts)
+        return
     rlog = []
     rtf = make_transform(tname, rlog, [t.split("\t")[3] for t in texts])
     rpath = dbutil.write_text(wd, "ref.gff", "\n".join(texts) + "\n")
